@@ -4,7 +4,8 @@
    read (write_csv ts) in the reader model, for tables with zero or more rows and zero or more columns.  The same composition is, in
    addition, evaluated on every generated bundle by the correspondence check (Corr/C01.v). *)
 From Coq Require Import List Arith.
-From PdV Require Import Text TextProofs WriteProofs ParseTable DestsRoundTrip RoundTrip RoundTripZero.
+From PdV Require Import Text TextProofs WriteProofs ParseTable DestsRoundTrip RoundTrip RoundTripZero PlainLines.
+From PdV.Model Require Import Marker.
 From PdV.Model Require Import WriteCsv Segment Reader.
 Import ListNotations.
 
@@ -81,6 +82,24 @@ Theorem C01_destinations_roundtrip :
     ds <> [] -> Forall dest_ok ds -> destinations (CStr (join [32%N] ds)) = ds.
 Proof. exact dests_roundtrip. Qed.
 Print Assumptions C01_destinations_roundtrip.
+
+(* The hypothesis plain_lines of the bundle theorems follows from conditions on first cells (DESIGN
+   section 3, items 1-4 and 6): the name does not start with a star, and the destinations line, every
+   column name, the first unit and every first-column value are neither blank nor a block marker. *)
+Theorem C01_plain_lines_from_first_cells :
+  forall (parse_float : str -> option ftok) (parse_dt : str -> dres) (sep : N) (t : wtable),
+    wf_table parse_float parse_dt sep t -> first_cells_plain t -> plain_lines sep t.
+Proof. exact plain_lines_intro. Qed.
+Print Assumptions C01_plain_lines_from_first_cells.
+
+(* ... and a cell is "neither blank nor a block marker" as soon as it is not blank, holds no colon and
+   does not start with a star. *)
+Theorem C01_cell_plain_nocolon :
+  forall s : str,
+    is_blank s = false -> has colon s = false -> (match s with x :: _ => x <> star | [] => True end) ->
+    cell_plain s.
+Proof. exact cell_plain_nocolon. Qed.
+Print Assumptions C01_cell_plain_nocolon.
 
 (* non-vacuity: a transposed table with an empty string in a non-first text column keeps it *)
 Example C01_example :
